@@ -232,6 +232,8 @@ def build(sc, sim, ref):
                 return side.body((x, y), {"a": a, "b": b}, getattr(self_, "label", "<no instance>") if sc.binding == 1 else None)
         if sc.strict:
             meth = meth_strict
+        # the method is published under its own name, as a def in a class body would be
+        meth.__name__ = meth.__qualname__ = "m"
         if sc.binding == 1:
             ns = {"m": decorate(sc, L, meth, ref)}
             if sc.falsy_inst:
